@@ -50,6 +50,10 @@ register(PropertySpec(
              "(shared with C04) that reset reaches every node of the tree"),
         Rule("PRED-ARGS", _lazy("predform", "rule_predicate_args"), 1,
              "a @predicate call inside a block binds its positional arguments by position (also to parameters that have a default)"),
+        Rule("CALL-FORWARD", _lazy("extra", "rule_call_forward"), 2,
+             "a symbolic method call applies the method with all the positional and keyword arguments it was built with"),
+        Rule("COVERAGE-SUBSUMPTION", _lazy("cacheidx", "rule_coverage_subsumption"), 3,
+             "(shared with C20) result caches are on by default: a coverage test that over-approximates loses rows on re-evaluation of any query"),
     ],
     explanation="Decides the clause 'the condition vocabulary denotes the ordinary Python operator': the node each "
                 "public comparison/membership entry constructs (arguments mapped to dataclass fields through the MRO "
@@ -87,6 +91,10 @@ register(PropertySpec(
              "(shared with C19) the inner steps of an attribute / call chain are values: a falsy intermediate value is mapped on, not dropped"),
         Rule("PRED-ARGS", _lazy("predform", "rule_predicate_args"), 1,
              "a @predicate call inside a block binds its positional arguments by position (also to parameters that have a default)"),
+        Rule("VOCAB-DENOTATION", _lazy("opden", "rule_vocab_denotation"), 4,
+             "for_all / flatten / concatenate / not_ return, on every path, the node of their name built from their arguments themselves"),
+        Rule("COVERAGE-SUBSUMPTION", _lazy("cacheidx", "rule_coverage_subsumption"), 3,
+             "(shared with C20) result caches are on by default: a coverage test that over-approximates loses rows on re-evaluation of any query"),
     ],
     explanation="Negation is a rewrite at construction time, so it is a function on syntax and is decided from the "
                 "source: the inverse-operator table is extracted by abstract evaluation of the setter's CFG (match / if "
@@ -283,6 +291,8 @@ register(PropertySpec(
              "decide whether to skip, wrap, flatten or accumulate it"),
         Rule("SCALAR-CLASSIFIER", _lazy("aggregates", "rule_scalar_classifier"), 1,
              "the collection / scalar classifier shared by flatten and concatenate excludes strings by isinstance (subclasses of str are scalars)"),
+        Rule("VOCAB-DENOTATION", _lazy("opden", "rule_vocab_denotation"), 4,
+             "for_all / flatten / concatenate / not_ return, on every path, the node of their name built from their arguments themselves"),
     ],
     explanation="Decides: exactly-one-row by counting yields over all CFG paths; and interface agreement among the "
                 "implementations of the evaluation protocol (a concatenate used where the protocol passes "
@@ -322,6 +332,8 @@ register(PropertySpec(
              "what a selector remembers as already concluded is remembered per conclusion, not only per binding of its variables"),
         Rule("CACHED-POSITION-RESET", _lazy("history", "rule_cached_position_reset"), 1,
              "memoised methods that depend on the position of a node in the tree are dropped with the per-evaluation state"),
+        Rule("KEY-FILTER-KEEPS", _lazy("binding", "rule_key_filter_keeps"), 4,
+             "filters that compute the variables identifying a row keep plain variables and one-to-many mappings"),
     ],
     explanation="Attaching a branch rewires the condition tree in place; evaluation follows the left/right fields, not "
                 "the graph edges, so a selector that is attached in the graph but not stored in its parent's operand slot "
@@ -359,6 +371,8 @@ register(PropertySpec(
              "conjoined with AND"),
         Rule("DOMAIN-PRESENCE", predform.rule_domain_presence, 2,
              "whether a domain was supplied is decided by identity with None, never by the truthiness of the user's object"),
+        Rule("KWARGS-KEPT", _lazy("extra", "rule_kwargs_kept"), 3,
+             "no given keyword (field constraint / constructor argument) is dropped because of its value"),
     ],
     explanation="Decides the construction-time clauses: positional binding re-implemented by the library agrees with "
                 "Python's (finite abstract evaluation of the loop over scenario argument lists), the type filter uses "
@@ -392,6 +406,12 @@ register(PropertySpec(
         Rule("RESULT-NO-ALIAS", cacheidx.rule_result_no_alias, 2,
              "in retrieve() a binding extended per cache branch is a fresh copy per branch, and the accumulator starts "
              "from a copy of the lookup"),
+        Rule("COVERAGE-SUBSUMPTION", _lazy("cacheidx", "rule_coverage_subsumption"), 3,
+             "a stored binding covers a lookup exactly when it is contained in it: per-key test evaluated for same / other / missing"),
+        Rule("LEAF-OVERWRITE", _lazy("extra", "rule_insert_reaches_store"), 1,
+             "every insert with index=True walks to the leaf and stores the output (no early return for a binding seen before)"),
+        Rule("WILDCARD-DISTINCT", _lazy("extra", "rule_wildcard_distinct"), 1,
+             "the wildcard sentinel, which equals everything, hashes by identity so that no stored key value shares its dict slot"),
     ],
     explanation="Decides 'clearing empties it' (the set of fields written by insert is contained in the set reset by "
                 "clear, computed from effects with alias tracking) and one necessary condition of 'each entry paired "
@@ -433,6 +453,12 @@ register(PropertySpec(
              "an operand cache is consulted only under the operand truth values for which it is filled"),
         Rule("CLEAR-COMPLETE", _lazy("cacheidx", "rule_clear_complete"), 4,
              "(shared with C20) invalidating a result cache after an abandoned evaluation also withdraws its coverage marks"),
+        Rule("COVERAGE-SUBSUMPTION", _lazy("cacheidx", "rule_coverage_subsumption"), 3,
+             "a stored binding covers a lookup exactly when it is contained in it: per-key test evaluated for same / other / missing"),
+        Rule("CACHE-OPERAND-AGREEMENT", _lazy("cacheidx", "rule_cache_operand_agreement"), 4,
+             "an operand cache is keyed by the variables of its operand and stores the rows of its operand"),
+        Rule("KEY-FILTER-KEEPS", _lazy("binding", "rule_key_filter_keeps"), 4,
+             "filters that compute the variables identifying a row keep plain variables and one-to-many mappings"),
     ],
     explanation="Decides that the runtime switch governs reads and writes consistently: the asymmetric state (reads "
                 "unguarded, writes guarded) changes results because an empty lookup marks everything covered. Not "
@@ -511,6 +537,8 @@ register(PropertySpec(
              "false condition rows are skipped before accumulation"),
         Rule("MEMO-ON-PULL", _lazy("lazy", "rule_memo_on_pull"), 3,
              "(shared with C07) for_all leaves the universal domain at the value that falsifies the statement: that value must already be memoised"),
+        Rule("VOCAB-DENOTATION", _lazy("opden", "rule_vocab_denotation"), 4,
+             "for_all / flatten / concatenate / not_ return, on every path, the node of their name built from their arguments themselves"),
     ],
     explanation="Universal quantification is implemented as a running intersection; that the accumulated set can only "
                 "shrink, is seeded once and is emptied by a value with no satisfying binding is a typestate property of "
@@ -543,6 +571,10 @@ register(PropertySpec(
         Rule("VALUE-NOT-TESTED", _lazy("values", "rule_value_not_tested"), 8,
              "the payload of a bound value is tested for truth only where the test decides _is_false_ (condition position), never to "
              "decide whether to skip, wrap, flatten or accumulate it"),
+        Rule("CALL-FORWARD", _lazy("extra", "rule_call_forward"), 2,
+             "a symbolic method call applies the method with all the positional and keyword arguments it was built with"),
+        Rule("KWARGS-KEPT", _lazy("extra", "rule_kwargs_kept"), 3,
+             "no given keyword (field constraint / constructor argument) is dropped because of its value"),
     ],
     explanation="An effect property: in which positions may a value's truthiness decide whether a row survives. The "
                 "positions are the evaluation call sites; their role is the resolved dataclass field of the receiver "
@@ -595,6 +627,8 @@ register(PropertySpec(
              "(shared with C19) the inner steps of an attribute / call chain are values: a falsy intermediate value is mapped on, not dropped"),
         Rule("DEDUP-TRUTH-UP", _lazy("binding", "rule_dedup_truth_up"), 1,
              "a conjunction reports its own truth to its parent as unknown when all that is known is that one operand is true"),
+        Rule("COVERAGE-SUBSUMPTION", _lazy("cacheidx", "rule_coverage_subsumption"), 3,
+             "a stored binding covers a lookup exactly when it is contained in it: per-key test evaluated for same / other / missing"),
     ],
     explanation="An implicit join is a join only if every operator threads the binding it received to its operands and "
                 "keeps everything its operands bound. Both are provenance facts on the evaluation call sites and the "
@@ -636,6 +670,10 @@ register(PropertySpec(
              "(shared with C02) a condition relating the element to its own parent evaluates the second operand under the row of the first"),
         Rule("FLATTEN-OCCURRENCE", _lazy("aggregates", "rule_flatten_occurrence"), 1,
              "two occurrences of the same object in one flattened collection are distinguishable rows wherever rows are de-duplicated"),
+        Rule("VOCAB-DENOTATION", _lazy("opden", "rule_vocab_denotation"), 4,
+             "for_all / flatten / concatenate / not_ return, on every path, the node of their name built from their arguments themselves"),
+        Rule("KEY-FILTER-KEEPS", _lazy("binding", "rule_key_filter_keeps"), 4,
+             "filters that compute the variables identifying a row keep plain variables and one-to-many mappings"),
     ],
     explanation="UNNEST is 'one row per inner element, all other variables keep the binding that produced it': the "
                 "first half is a path property of one small generator, the second is the BIND-KEEP provenance rule at "
@@ -709,6 +747,10 @@ register(PropertySpec(
              "binding dict, never a user object"),
         Rule("PRED-ARGS", _lazy("predform", "rule_predicate_args"), 1,
              "a @predicate call inside a block binds its positional arguments by position (also to parameters that have a default)"),
+        Rule("CALL-FORWARD", _lazy("extra", "rule_call_forward"), 2,
+             "a symbolic method call applies the method with all the positional and keyword arguments it was built with"),
+        Rule("ROW-FRESH", _lazy("extra", "rule_row_fresh"), 1,
+             "(shared with C02) incl. the exception for Union.evaluate_right, which stands only while or_ never builds a Union"),
     ],
     explanation="All clauses are weak but necessary: arguments evaluated under the current binding, one construction "
                 "per combination, no retrieval instead of construction for inferred variables, existing objects passed "
